@@ -548,7 +548,13 @@ pub fn build(tier: Tier) -> CheckDef {
             "NoteHeader is private and is covered through C14; vd_version/vn_version and the ident gate bytes stay valid (their rejection paths belong to C10)".into(),
             "2 simultaneous deviations suffice for defects involving <= 2 fields".into(),
         ],
-        spaces: vec![Box::new(Structs { pairs: true }), Box::new(Accessors { full_rinfo: tier == Tier::Thorough }), Box::new(Independence { sk: ind })],
+        spaces: vec![Box::new(Structs { pairs: true }), Box::new(Accessors { full_rinfo: tier == Tier::Thorough }), Box::new(Independence { sk: ind }),
+            // records behind a non-zero starting offset, and cursors that must advance by exactly one structure
+            Box::new(super::c13::Displaced),
+            Box::new(super::c09::Sequences { depth: 3 }),
+            // note headers: sizes and padding of consecutive records through ElfBytes
+            Box::new(super::c14::ThroughFile),
+        ],
         abort_is_violation: false,
         hang_is_violation: false,
         exhaustive: true,
